@@ -118,7 +118,7 @@ def header_summary(unit, fname):
         stmts.append(s)
     sm = C.Summariser(unit, cur, {})
     # early returns / guards do not move the cursor; summarise only statements that mention a cursor
-    rel = [s for s in stmts if s.get("kind") not in ("IfStmt", "ReturnStmt") or C.pad_kind(s) is not None]
+    rel = [s for s in stmts if s.get("kind") not in ("IfStmt", "ReturnStmt") or C.pad_kind(s, unit) is not None]
     rel = [s for s in rel if (C.refs(s) & cur) and s.get("kind") != "DeclStmt" or
            (s.get("kind") in ("WhileStmt",) and C.count_incs(s, cur))]
     return sm.summarise(rel), fn
